@@ -406,6 +406,10 @@ func (obj *Package) SetIfHas(name string, value Object, private bool) (vv *VarVa
 	if vv = obj.vars[name]; vv != nil {
 		if vv.Export || CurrentPackage == obj || private {
 			if vv.Const {
+				// The condition is made without the mutex, making it
+				// looks classes and functions up in the packages.
+				unlock = false
+				obj.mu.Unlock()
 				PackagePanic(NewScope(), 0, obj, "%s is a constant and thus can't be set", name)
 			}
 			if vv.Set != nil {
@@ -444,10 +448,16 @@ func (obj *Package) DefConst(name string, value Object, doc string) (vv *VarVal)
 			return vv
 		}
 		if vv.Const || vv.Val != Unbound || vv.Get != nil || vv.Set != nil || vv.Pkg != nil {
+			// The condition is made without the mutex, making it looks
+			// classes and functions up in the packages.
+			unlock = false
+			obj.mu.Unlock()
 			PackagePanic(NewScope(), 0, obj, "%s is a constant and thus can't be changed", name)
 		}
 	}
 	if obj.Locked {
+		unlock = false
+		obj.mu.Unlock()
 		PackagePanic(NewScope(), 0, obj, "Package %s is locked thus no new constants can be set.", obj.Name)
 	}
 	if vv != nil {
